@@ -716,12 +716,31 @@ theorem run_clearWhiteoutN (cs : List Str) (hne : cs ≠ []) (hcs : ∀ c ∈ cs
   · simp [hm, bind, M.bind, M.ret, run_vexists h.hu, run_pRemoveFile h.hu]
   · simp [hm, bind, M.bind, M.ret, run_vexists h.hu, Pure.pure, M.pure, h.hu.same]
 
+/-- the tolerant removal of the marker by `create_dir` (fix of O11) computes `pClear` as well: over a
+memory layer a marker that exists is removable -/
+theorem run_clearWhiteoutTN (cs : List Str) (hne : cs ≠ []) (hcs : ∀ c ∈ cs, GoodComp c) :
+    clearWhiteoutT (layersN (u :: is) (idu :: ids)) (renderC cs) w =
+      ((pClear mu (renderC cs)).1, w.setLeafFiles u (pClear mu (renderC cs)).2) := by
+  unfold clearWhiteoutT pClear
+  rw [whiteoutPath_layersN cs hne hcs]
+  by_cases hm : mu.contains (marker (renderC cs)) = true
+  · simp only [hm, bind, M.bind, M.ret, run_vexists h.hu, run_pRemoveFile h.hu, if_true]
+    have hnf := Mem.pRemoveFile_not_nf hm
+    cases hr : Mem.pRemoveFile mu (marker (renderC cs)) with
+    | mk r m' =>
+      rw [hr] at hnf
+      cases r with
+      | ok a => rfl
+      | err k pth => cases k <;> first | rfl | exact absurd rfl (hnf pth)
+      | panic => rfl
+  · simp [hm, bind, M.bind, M.ret, run_vexists h.hu, Pure.pure, M.pure, h.hu.same]
+
 /-- `create_dir` over n layers -/
 def pCreateDirN (mu : FMap) (ms : List FMap) (cs : List Str) : Res Unit × FMap :=
   andThen (pEnsureN (mu :: ms) cs.dropLast) fun _ mu1 =>
     match viewN (mu1 :: ms) (renderC cs) with
     | some e => (.err (if e.ftype = .file then .fileExists else .dirExists) none, mu1)
-    | none => andThen (Mem.pCreateDir mu1 (renderC cs)) fun _ mu2 => pClear mu2 (renderC cs)
+    | none => pCreateTail mu1 (renderC cs)
 
 theorem run_ocreateDirN (cs : List Str) (hne : cs ≠ []) (hcs : ∀ c ∈ cs, GoodComp c) :
     Overlay.createDir (layersN (u :: is) (idu :: ids)) (renderC cs) w =
@@ -742,13 +761,18 @@ theorem run_ocreateDirN (cs : List Str) (hne : cs ≠ []) (hcs : ∀ c ∈ cs, G
       rcases Option.eq_none_or_eq_some (viewN (mu1 :: ms) (renderC cs)) with hv | ⟨e, hv⟩
       · simp only [hv, Option.isSome_none, Bool.false_eq_true, if_false, M.ret, M.bind,
           writePath_layersN cs hne hcs, run_pCreateDir h1.hu]
+        unfold pCreateTail
         cases hC : Mem.pCreateDir mu1 (renderC cs) with
         | mk r2 mu2 =>
           cases r2 with
-          | err k pth => simp only [World.setLeafFiles_twice]
+          | err k pth =>
+            cases k <;> try simp only [World.setLeafFiles_twice]
+            simp only [run_clearWhiteoutTN (h.setHead mu2) cs hne hcs, World.setLeafFiles_twice]
+            cases hP : pClear mu2 (renderC cs) with
+            | mk r3 mu3 => cases r3 <;> rfl
           | panic => simp only [World.setLeafFiles_twice]
           | ok a2 =>
-            simp only [run_clearWhiteoutN (h.setHead mu2) cs hne hcs, World.setLeafFiles_twice]
+            simp only [run_clearWhiteoutTN (h.setHead mu2) cs hne hcs, World.setLeafFiles_twice]
       · rw [hv] at hmeta
         simp only [hv, Option.isSome_some, if_true, M.bind, M.failK, fail]
         exact hmeta
